@@ -43,10 +43,10 @@ def _get_large_cell_normals(s1, s2):
     normals[:, 1] = planes2
     normals = Rotation.from_rodrigues(normals).flatten().unique(antipodal=False)
 
-    _, inv = normals.axis.unique(return_inverse=True)
+    axes, inv = normals.axis.unique(return_inverse=True)
     axes_unique = []
     angles_unique = []
-    for i in np.unique(inv):
+    for i in np.lexsort(axes.data.T[::-1]):  # Normals sorted by axis
         n = normals[inv == i]
         axes_unique.append(n.axis.data[0])
         angles_unique.append(np.max(n.angle))
